@@ -19,8 +19,15 @@ per client, callbacks and disconnect handlers, what was published, every contain
 Oracle (model-free): the same stream without its inert garbage, on the real code, has the same
 observable effect — every valid message after a piece of garbage is fully applied; `hA` never
 applies what it published itself; a `callback` for another host completes nothing.
-Thorough tier: `RedisManager` / `AsyncRedisManager` with a fake `redis` package: the retry loop's
-sleeps (1, 2, 4, ... capped at 60, reset by a successful reconnect) and that nothing is dropped.
+Redis backends (both tiers, more in the thorough one), with a fake `redis` package:
+  * `RedisManager` / `AsyncRedisManager._listen()` driven directly over connection plans: the retry loop's sleeps
+    (1, 2, 4, ... capped at 60, reset by a successful reconnect) and that nothing is dropped (`redis_part`, compared
+    with the model's `retry`);
+  * end to end (`redis_e2e_part`): the real managers under the real `_thread()` on a real server with local clients,
+    against a scripted broker whose subscription state lives on the PubSub object, with garbage of every containment
+    level (the outer recovery that abandons `_listen()` and calls it again included), foreign traffic, dropped and
+    refused connections; asyncio: abandoned async generators are finalised when the loop gets to it, as in
+    production.  Oracle: every valid message of the script has its full effect, the listener is still listening.
 """
 import collections
 import copy
@@ -1184,6 +1191,593 @@ def redis_part(ctx, drv):
                 return
 
 
+# ---------------------------------------------------------------- Redis listeners end to end (both tiers)
+#
+# The REAL `RedisManager` / `AsyncRedisManager` (their `_listen`, `_redis_listen_with_retries`, `_redis_connect`)
+# under the REAL `_thread()` of their base class, attached to a real server with local clients, against a
+# scripted Redis: a broker whose subscription state lives on each PubSub OBJECT (subscribe / unsubscribe
+# really decide what `listen()` yields), connections that drop and refuse, and the channel traffic of a
+# script — valid messages of another server, garbage of every containment level (undecodable, inert values,
+# dicts failing inside the per-message `try`, values failing OUTSIDE it so that `_thread` abandons its
+# `_listen()` iterator and calls `_listen()` again), traffic that `_listen` has to filter out.
+# Time is scripted: the broker hands out the next entry of the script only when the listener is waiting for
+# traffic and nothing else is runnable — threaded flavour: inside `listen()`; asyncio flavour: `listen()`
+# awaits a harness-owned future, the harness runs the loop until nothing is ready (this is when CPython's
+# asyncgen finalizer hook gets to `aclose()` an abandoned async generator: production keeps running, nothing
+# calls `shutdown_asyncgens()`), collects garbage, runs the loop again, and only then lets the next entry
+# arrive.  Oracle (the statement of C15, no model): every valid message of the script has its full effect on
+# the local clients, in order, nothing else has any, and the listener is still listening at the end.
+
+E2E_NS = '/'
+E2E_CHANNEL = 'socketio'
+_BROKER = [None]
+
+
+class E2ERedisError(Exception):
+    pass
+
+
+class Broker:
+    def __init__(self, script, is_async, net_suspends=False):
+        self.script = script
+        self.i = 0
+        self.is_async = is_async
+        self.net_suspends = net_suspends     # asyncio: subscribe/unsubscribe wait for the server's confirmation
+        self.loop = None
+        self.pubsubs = []
+        self.waiters = []
+        self.refuse = 0
+        self.sleeps = []
+        self.calls = 0                       # runaway guard: calls into the fake that consume no script
+        self.stats = collections.Counter()
+        self.wire = None                     # script entry -> what arrives on a subscribed connection
+
+    def spin_guard(self):
+        self.calls += 1
+        if self.calls > 3000:
+            raise StopScript('runaway: the manager keeps calling into redis without ever waiting for traffic')
+
+    def advance(self):
+        """the next entry of the script happens; -> False when the script is over"""
+        if self.i >= len(self.script):
+            return False
+        ev = self.script[self.i]
+        self.i += 1
+        self.calls = 0
+        live = [ps for ps in self.pubsubs if ps.subscribed]
+        if ev['e'] == 'drop':
+            self.refuse += ev.get('refuse', 0)
+            for ps in live:
+                ps.queue.append(E2ERedisError('connection lost'))
+        else:
+            msg = self.wire(ev)
+            for ps in live:
+                ps.queue.append(dict(msg))
+            if not live:
+                self.stats['entries_that_met_no_subscription'] += 1
+        for fut in self.waiters:
+            if not fut.done():
+                fut.set_result(None)
+        self.waiters = []
+        return True
+
+    def tick_sync(self):
+        if not self.advance():
+            raise StopScript('script over')
+
+    async def tick(self):
+        fut = self.loop.create_future()
+        self.waiters.append(fut)
+        await fut
+
+
+class _E2EPubSub:
+    def __init__(self, broker):
+        self.b = broker
+        self.subscribed = False
+        self.queue = []
+        self.listens = 0
+        broker.pubsubs.append(self)
+        broker.stats['connections'] += 1
+
+    def _sub(self, channel):
+        b = self.b
+        b.spin_guard()
+        if b.refuse > 0:
+            b.refuse -= 1
+            b.stats['subscribe_refused'] += 1
+            raise E2ERedisError('subscribe refused')
+        if channel == E2E_CHANNEL:
+            self.subscribed = True
+        b.stats['subscribe'] += 1
+
+    def _unsub(self, channel):
+        self.b.spin_guard()
+        if channel in (None, E2E_CHANNEL):
+            self.subscribed = False
+        self.b.stats['unsubscribe'] += 1
+
+    def _pop(self):
+        item = self.queue.pop(0)
+        if isinstance(item, Exception):
+            self.subscribed = False
+            self.queue = []
+            raise item
+        return item
+
+    def subscribe(self, channel):
+        self._sub(channel)
+
+    def unsubscribe(self, channel=None):
+        self._unsub(channel)
+
+    def listen(self):
+        # redis-py: `while self.subscribed: ...` — ends at once on a PubSub that is not subscribed; here one
+        # entry of the script passes first (it is lost for this PubSub), so that a deaf listener cannot spin
+        self.b.spin_guard()
+        if not self.subscribed:
+            self.b.tick_sync()
+            return
+        while self.subscribed:
+            if self.queue:
+                yield self._pop()
+            else:
+                self.b.tick_sync()
+
+
+class _E2EAPubSub(_E2EPubSub):
+    async def _net(self):
+        if self.b.net_suspends:
+            import asyncio
+            await asyncio.sleep(0)
+
+    async def subscribe(self, channel):
+        self._sub(channel)          # the command is on the wire in call order; then the confirmation is awaited
+        await self._net()
+
+    async def unsubscribe(self, channel=None):
+        self._unsub(channel)
+        await self._net()
+
+    async def listen(self):
+        b = self.b
+        b.spin_guard()
+        b.stats['listen_calls'] += 1
+        mine = b.stats['listen_calls']
+        try:
+            if not self.subscribed:
+                await b.tick()
+                return
+            while self.subscribed:
+                if self.queue:
+                    yield self._pop()
+                else:
+                    await b.tick()
+        except GeneratorExit:
+            if b.stats['listen_calls'] > mine:
+                b.stats['listen_generators_finalised_after_a_newer_one_started'] += 1
+            raise
+
+
+def install_e2e_redis():
+    class Redis:
+        ps_class = _E2EPubSub
+
+        @classmethod
+        def from_url(cls, url, **kw):
+            _BROKER[0].spin_guard()
+            return cls()
+
+        def pubsub(self, ignore_subscribe_messages=True):
+            return self.ps_class(_BROKER[0])
+
+        def _publish(self, channel, data):
+            b = _BROKER[0]
+            b.stats['published_by_the_manager'] += 1
+            n = 0
+            for ps in b.pubsubs:
+                if ps.subscribed and channel == E2E_CHANNEL:        # Redis echoes to the publisher's subscription
+                    ps.queue.append({'type': 'message', 'pattern': None, 'channel': channel.encode(), 'data': data})
+                    n += 1
+            return n
+
+        def publish(self, channel, data):
+            return self._publish(channel, data)
+
+    class ARedis(Redis):
+        ps_class = _E2EAPubSub
+
+        async def publish(self, channel, data):
+            return self._publish(channel, data)
+
+    redis = types.ModuleType('redis')
+    exc = types.ModuleType('redis.exceptions')
+    exc.RedisError = E2ERedisError
+    aio = types.ModuleType('redis.asyncio')
+    aio.Redis = ARedis
+    redis.exceptions = exc
+    redis.asyncio = aio
+    redis.Redis = Redis
+    sys.modules['redis'] = redis
+    sys.modules['redis.exceptions'] = exc
+    sys.modules['redis.asyncio'] = aio
+    mods = {}
+    for is_async, name in ((False, 'socketio.redis_manager'), (True, 'socketio.async_redis_manager')):
+        mods[is_async] = importlib.reload(importlib.import_module(name))
+    return mods
+
+
+def uninstall_e2e_redis():
+    uninstall_fake_redis()
+    for name in ('socketio.redis_manager', 'socketio.async_redis_manager'):
+        try:
+            importlib.reload(importlib.import_module(name))
+        except Exception:   # noqa
+            pass
+
+
+E2E_OUTER = [  # decoded value is truthy and `'method' in data` / `data['method']` raises: OUTSIDE the per-message try
+    {'t': 'pickle', 'v': 5}, {'t': 'pickle', 'v': 42}, {'t': 'pickle', 'v': 3.5}, {'t': 'pickle', 'v': True},
+    {'t': 'json', 'v': True}, {'t': 'json', 'v': 7}, {'t': 'pickle', 'v': 'method'},
+    {'t': 'pickle', 'v': 'this is not a method'}, {'t': 'json', 'v': 'xmethody'}, {'t': 'pickle', 'v': ['method', 1]},
+    {'t': 'json', 'v': ['method']}, {'t': 'pickle', 'v': {'$tuple': ['method']}}]
+E2E_INERT = [  # undecodable, falsy, or a container without 'method'
+    {'t': 'bytes', 'hex': 'ff00fe'}, {'t': 'bytes', 'hex': '80'}, {'t': 'pickle', 'v': 0}, {'t': 'pickle', 'v': None},
+    {'t': 'pickle', 'v': []}, {'t': 'pickle', 'v': {}}, {'t': 'pickle', 'v': {'a': 1}}, {'t': 'pickle', 'v': 'plain'},
+    {'t': 'json', 'v': [1, 2]}, {'t': 'json', 'v': None}, {'t': 'evil', 'exc': 'SystemExit'},
+    {'t': 'evil', 'exc': 'CancelledError'}]
+E2E_INNER = [  # dicts with a 'method' that fail (or do nothing) inside the per-message try
+    {'t': 'pickle', 'v': {'method': 'nope', 'host_id': 'hX'}},
+    {'t': 'pickle', 'v': {'method': 'emit', 'host_id': 'hX'}},
+    {'t': 'pickle', 'v': {'method': 'emit', 'event': 'ghost', 'data': {'$tuple': [1]}, 'namespace': 7, 'room': [[]],
+                          'host_id': 'hX'}},
+    {'t': 'json', 'v': {'method': 'enter_room', 'host_id': 'hX'}},
+    {'t': 'pickle', 'v': {'method': 'callback', 'host_id': 'hX', 'sid': 'nobody', 'namespace': '/', 'id': 1,
+                          'args': []}},
+    {'t': 'pickle', 'v': {'method': 'emit', 'event': 'ghost', 'data': 'echo', 'namespace': '/', 'room': None,
+                          'skip_sid': None, 'callback': None, 'host_id': {'$self': 1}}}]
+
+
+def gen_e2e_case(rng, force=None):
+    """force: None | 'outer' | 'drop' — the kind of fault the case certainly contains, followed by valid traffic"""
+    n_c = rng.choice([1, 2, 2, 3])
+    clients = ['c%d' % i for i in range(n_c)]
+    rooms = {c: rng.choice([None, 'r1', 'r2']) for c in clients}
+    script = []
+    idx = [0]
+    alive = list(clients)
+
+    def valid():
+        idx[0] += 1
+        x = rng.random()
+        how = rng.choice(['pickle', 'pickle', 'pickle', 'json'])
+        if x < 0.62 or not alive:
+            room = rng.choice([None, None, {'r': 'r1'}, {'r': 'r2'}, {'s': rng.choice(clients)}])
+            return {'e': 'emit', 'ev': 'v%d' % idx[0], 'data': rng.choice([None, 5, 'x']), 'room': room,
+                    'skip': rng.choice([None, None, rng.choice(clients)]), 'how': how}
+        if x < 0.80:
+            return {'e': rng.choice(['enter', 'enter', 'leave']), 'sid': rng.choice(clients),
+                    'room': rng.choice(['r1', 'r2']), 'how': how}
+        if x < 0.88:
+            return {'e': 'close', 'room': rng.choice(['r1', 'r2']), 'how': how}
+        if len(alive) > 1:
+            c = rng.choice(alive)
+            alive.remove(c)
+            return {'e': 'disconnect', 'sid': c, 'how': how}
+        return {'e': 'emit', 'ev': 'v%d' % idx[0], 'data': 'x', 'room': None, 'skip': None, 'how': how}
+
+    def fault(kind=None):
+        x = rng.random()
+        if kind == 'outer' or (kind is None and x < 0.30):
+            return {'e': 'raw', 'class': 'outer', 'g': rng.choice(E2E_OUTER)}
+        if kind == 'drop' or (kind is None and x < 0.50):
+            return {'e': 'drop', 'refuse': rng.choice([0, 0, 1, 2, 3, 7])}
+        if x < 0.65:
+            return {'e': 'raw', 'class': 'inert', 'g': rng.choice(E2E_INERT)}
+        if x < 0.82:
+            return {'e': 'raw', 'class': 'inner', 'g': rng.choice(E2E_INNER)}
+        # traffic `_listen` must not hand on: another channel, not a 'message', no 'data'
+        return {'e': 'other', 'why': rng.choice(['channel', 'type', 'nodata'])}
+
+    if rng.random() < 0.15:
+        script.append({'e': 'drop', 'refuse': rng.choice([0, 1])} if rng.random() < 0.5 else fault('outer'))
+    for _ in range(rng.randint(1, 3)):
+        script.append(valid())
+    if force:
+        script.append(fault(force))
+        if rng.random() < 0.4:
+            script.append(fault(rng.choice(['outer', 'drop'])))      # recovery upon recovery
+        script.append(valid())
+    for _ in range(rng.randint(2, 10)):
+        script.append(valid() if rng.random() < 0.5 else fault())
+    for _ in range(rng.randint(1, 2)):
+        script.append(valid())
+    return {'clients': clients, 'rooms': rooms, 'script': script, 'net_suspends': rng.random() < 0.5}
+
+
+def e2e_expected(case):
+    """the statement: what every client must have been sent, in order, if every valid message has its effect"""
+    member = {r: set() for r in ('r1', 'r2')}
+    for c, r in case['rooms'].items():
+        if r:
+            member[r].add(c)
+    alive = list(case['clients'])
+    out = {c: [] for c in case['clients']}
+    for ev in case['script']:
+        k = ev['e']
+        if k == 'emit':
+            room = ev['room']
+            if room is None:
+                to = list(alive)
+            elif 'r' in room:
+                to = [c for c in alive if c in member[room['r']]]
+            else:
+                to = [c for c in alive if c == room['s']]
+            frame = '2' + json.dumps([ev['ev']] + ([] if ev['data'] is None else [ev['data']]), separators=(',', ':'))
+            for c in to:
+                if c != ev['skip']:
+                    out[c].append(frame)
+        elif k == 'enter':
+            if ev['sid'] in alive:
+                member[ev['room']].add(ev['sid'])
+        elif k == 'leave':
+            member[ev['room']].discard(ev['sid'])
+        elif k == 'close':
+            member[ev['room']] = set()
+        elif k == 'disconnect':
+            if ev['sid'] in alive:
+                alive.remove(ev['sid'])
+                out[ev['sid']].append('1')
+                for m in member.values():
+                    m.discard(ev['sid'])
+    return out
+
+
+def run_e2e(mods, case, is_async):
+    """-> observation: frames per client, how the listener ended, what the fake saw"""
+    import asyncio
+    import gc
+    import warnings
+    warnings.simplefilter('ignore', RuntimeWarning)
+    family = 'asyncio' if is_async else 'threading'
+    b = Broker(case['script'], is_async, bool(case.get('net_suspends')))
+    _BROKER[0] = b
+    mod = mods[is_async]
+    log = []
+    if is_async:
+        class _Aio:
+            def __getattr__(self, name):
+                return getattr(asyncio, name)
+
+            async def sleep(self, t):
+                b.spin_guard()
+                b.sleeps.append(t)
+        mod.asyncio = _Aio()
+        m = mod.AsyncRedisManager('redis://', channel=E2E_CHANNEL)
+    else:
+        class _Time:
+            def sleep(self, t):
+                b.spin_guard()
+                b.sleeps.append(t)
+        mod.time = _Time()
+        m = mod.RedisManager('redis://', channel=E2E_CHANNEL)
+    w = W.ServerWorld(family, manager=m, namespaces=[E2E_NS], logger=WP._Log(log, 'h'))
+    try:
+        b.loop = w.loop
+        m.initialize()
+        w.sio.manager_initialized = True
+        w.background.clear()
+        sids = {}
+        for i, c in enumerate(case['clients']):
+            w.open('t%d' % i)
+            w.recv('t%d' % i, '0')
+            fr = [f for f in w.sent('t%d' % i) if isinstance(f, str) and f.startswith('0')]
+            sids[c] = json.loads(fr[0][1:])['sid']
+            if case['rooms'].get(c):
+                w.api('enter_room', sids[c], case['rooms'][c])
+
+        class _N:
+            def sid(self, name):
+                return sids.get(name, name)
+        names = _N()
+
+        def payload(d, how):
+            return pickle.dumps(d) if how == 'pickle' else json.dumps(d).encode()
+
+        def wire(ev):
+            k = ev['e']
+            msg = {'type': 'message', 'pattern': None, 'channel': E2E_CHANNEL.encode()}
+            if k == 'raw':
+                g = ev['g']
+                if g['t'] in ('pickle', 'json') and isinstance(g['v'], dict) and g['v'].get('host_id') == {'$self': 1}:
+                    msg['data'] = payload(dict(g['v'], host_id=m.host_id), g['t'])
+                else:
+                    raw = build_raw(g, names)
+                    msg['data'] = raw
+                return msg
+            if k == 'other':
+                ghost = pickle.dumps({'method': 'emit', 'event': 'ghost', 'data': ev['why'], 'namespace': E2E_NS,
+                                      'room': None, 'skip_sid': None, 'callback': None, 'host_id': 'hX'})
+                if ev['why'] == 'channel':
+                    msg.update(channel=b'another-channel', data=ghost)
+                elif ev['why'] == 'type':
+                    msg.update(type='subscribe', data=ghost)
+                return msg
+            if k == 'emit':
+                room = ev['room']
+                d = {'method': 'emit', 'event': ev['ev'], 'data': ev['data'], 'namespace': E2E_NS,
+                     'room': None if room is None else room['r'] if 'r' in room else sids[room['s']],
+                     'skip_sid': None if ev['skip'] is None else sids[ev['skip']], 'callback': None, 'host_id': 'hX'}
+            elif k in ('enter', 'leave'):
+                d = {'method': k + '_room', 'sid': sids[ev['sid']], 'room': ev['room'], 'namespace': E2E_NS,
+                     'host_id': 'hX'}
+            elif k == 'close':
+                d = {'method': 'close_room', 'room': ev['room'], 'namespace': E2E_NS, 'host_id': 'hX'}
+            else:
+                d = {'method': 'disconnect', 'sid': sids[ev['sid']], 'namespace': E2E_NS, 'host_id': 'hX'}
+            msg['data'] = payload(d, ev['how'])
+            return msg
+        b.wire = wire
+
+        if is_async:
+            loop = w.loop
+
+            def pump():
+                n = 0
+                while loop._ready:
+                    loop.call_soon(loop.stop)
+                    loop.run_forever()
+                    n += 1
+                    if n > 2000:
+                        raise C.Infra('C15 redis e2e: the event loop does not quiesce')
+            task = loop.create_task(m._thread())
+            ended = None
+            seen = None
+            while True:
+                pump()
+                if seen != (len(log), len(b.sleeps), len(b.pubsubs)):
+                    # something was contained or retried since the last look: an iterator may have been
+                    # abandoned; if it sits in a reference cycle it is finalised now at the latest
+                    seen = (len(log), len(b.sleeps), len(b.pubsubs))
+                    gc.collect(1)       # (the young generations: the cost must not grow with the heap of the run)
+                    pump()
+                if task.done():
+                    break
+                if not b.waiters:
+                    ended = 'stuck: the loop is idle and the listener is not waiting for traffic'
+                    break
+                if not b.advance():
+                    ended = 'alive'
+                    break
+            if task.done():
+                ex = None if task.cancelled() else task.exception()
+                ended = 'returned' if ex is None and not task.cancelled() else \
+                    'alive' if isinstance(ex, StopScript) and 'script over' in str(ex) else \
+                    'ended with %s' % (type(ex).__name__ if ex is not None else 'CancelledError')
+                if isinstance(ex, StopScript) and 'runaway' in str(ex):
+                    ended = str(ex)
+            else:
+                task.cancel()
+                pump()
+            loop.run_until_complete(loop.shutdown_asyncgens())      # tidying up after the verdict
+        else:
+            try:
+                m._thread()
+                ended = 'returned'
+            except StopScript as ex:
+                ended = 'alive' if 'script over' in str(ex) else str(ex)
+            except BaseException as ex:   # noqa
+                ended = 'ended with %s' % type(ex).__name__
+        frames = {}
+        for i, c in enumerate(case['clients']):
+            frames[c] = [f if isinstance(f, str) else repr(f) for f in w.sent('t%d' % i)]
+        restarts = sum(1 for _h, lvl, msg, _e in log if lvl == 'exception' and 'Unexpected Error' in msg)
+        handler_errors = sum(1 for _h, lvl, msg, _e in log if lvl == 'exception' and 'Handler error' in msg)
+        return {'frames': frames, 'ended': ended, 'sleeps': list(b.sleeps), 'consumed': b.i,
+                'outer_recoveries': restarts, 'handler_errors': handler_errors, 'stats': dict(b.stats)}
+    finally:
+        _BROKER[0] = None
+        w.close()
+
+
+def judge_e2e(case, obs):
+    """-> list of failures of the statement"""
+    bad = []
+    want = e2e_expected(case)
+    if obs['ended'] != 'alive':
+        bad.append('the listener is not listening any more at the end of the script: %s' % obs['ended'])
+    for c in case['clients']:
+        got = obs['frames'].get(c, [])
+        if got != want[c]:
+            k = next((j for j, (x, y) in enumerate(zip(got, want[c])) if x != y), min(len(got), len(want[c])))
+            # which script entry is the first whose effect is missing / wrong
+            bad.append('client %s was sent %d packet(s), the valid messages of the script require %d; first '
+                       'difference at packet %d: got %r, required %r' % (
+                           c, len(got), len(want[c]), k, got[k] if k < len(got) else None,
+                           want[c][k] if k < len(want[c]) else None))
+    if any(s not in (1, 2, 4, 8, 16, 32, 60) for s in obs['sleeps']):
+        bad.append('retry sleeps %r are not of the form 1, 2, 4, ... capped at 60' % (obs['sleeps'],))
+    return bad
+
+
+E2E_FIXED = [
+    # the demonstrations every run contains: an outer-recovery value, then traffic; a lost connection with refused
+    # reconnections, then traffic; both; recovery as the very first thing on the channel
+    {'clients': ['c0'], 'rooms': {'c0': None}, 'net_suspends': False, 'script': [
+        {'e': 'emit', 'ev': 'v1', 'data': 'x', 'room': None, 'skip': None, 'how': 'pickle'},
+        {'e': 'raw', 'class': 'outer', 'g': {'t': 'pickle', 'v': 5}},
+        {'e': 'emit', 'ev': 'v2', 'data': 'x', 'room': None, 'skip': None, 'how': 'pickle'},
+        {'e': 'raw', 'class': 'outer', 'g': {'t': 'pickle', 'v': 'this is not a method'}},
+        {'e': 'emit', 'ev': 'v3', 'data': 5, 'room': None, 'skip': None, 'how': 'json'}]},
+    {'clients': ['c0', 'c1'], 'rooms': {'c0': 'r1', 'c1': None}, 'net_suspends': True, 'script': [
+        {'e': 'emit', 'ev': 'v1', 'data': None, 'room': {'r': 'r1'}, 'skip': None, 'how': 'pickle'},
+        {'e': 'drop', 'refuse': 3},
+        {'e': 'enter', 'sid': 'c1', 'room': 'r1', 'how': 'pickle'},
+        {'e': 'raw', 'class': 'outer', 'g': {'t': 'json', 'v': True}},
+        {'e': 'emit', 'ev': 'v2', 'data': 'x', 'room': {'r': 'r1'}, 'skip': 'c0', 'how': 'pickle'},
+        {'e': 'drop', 'refuse': 0},
+        {'e': 'other', 'why': 'channel'},
+        {'e': 'disconnect', 'sid': 'c0', 'how': 'json'},
+        {'e': 'emit', 'ev': 'v3', 'data': 5, 'room': None, 'skip': None, 'how': 'pickle'}]},
+    {'clients': ['c0'], 'rooms': {'c0': None}, 'net_suspends': True, 'script': [
+        {'e': 'raw', 'class': 'outer', 'g': {'t': 'pickle', 'v': ['method', 1]}},
+        {'e': 'raw', 'class': 'outer', 'g': {'t': 'pickle', 'v': True}},
+        {'e': 'emit', 'ev': 'v1', 'data': 'x', 'room': None, 'skip': None, 'how': 'pickle'}]},
+]
+
+
+def redis_e2e_part(ctx):
+    rng = ctx.rng
+    n = ctx.scale(297, 6000)
+    cases = [copy.deepcopy(c) for c in E2E_FIXED]
+    for i in range(n):
+        cases.append(gen_e2e_case(rng, force=[None, 'outer', 'drop'][i % 3]))
+    mods = install_e2e_redis()
+    failures = 0
+    cov = collections.Counter()
+    try:
+        for case in cases:
+            for is_async in (False, True):
+                fam = 'asyncio' if is_async else 'threading'
+                obs = run_e2e(mods, case, is_async)
+                ctx.count('redis_e2e.cases.' + fam)
+                cov['listener_runs'] += 1
+                cov['script_entries'] += len(case['script'])
+                cov['outer_recoveries(_listen() abandoned and called again).' + fam] += obs['outer_recoveries']
+                cov['reconnections.' + fam] += len(obs['sleeps'])
+                for k in ('subscribe_refused', 'listen_generators_finalised_after_a_newer_one_started',
+                          'entries_that_met_no_subscription', 'published_by_the_manager'):
+                    if obs['stats'].get(k):
+                        cov[k + '.' + fam] += obs['stats'][k]
+                seen_fault = False
+                for ev in case['script']:
+                    if ev['e'] in ('raw', 'drop', 'other'):
+                        ctx.count('redis_e2e.entry.' + (ev['e'] if ev['e'] != 'raw' else 'garbage.' + ev['class']))
+                        seen_fault = seen_fault or ev['e'] == 'drop' or ev.get('class') == 'outer'
+                    else:
+                        ctx.count('redis_e2e.entry.valid.' + ev['e'])
+                        if seen_fault:
+                            cov['valid_messages_after_a_recovery_or_reconnection'] += 1
+                bad = judge_e2e(case, obs)
+                if bad:
+                    failures += 1
+                    ctx.violation('oracle', 'redis backend end to end (%s): %s' % (fam, bad[0]),
+                                  {'redis_case': case, 'async': is_async, 'failures': bad[:6],
+                                   'observed': {k: obs[k] for k in ('frames', 'ended', 'sleeps', 'consumed',
+                                                                     'outer_recoveries', 'stats')},
+                                   'required_frames': e2e_expected(case)})
+            if failures >= 3:
+                break
+    finally:
+        uninstall_e2e_redis()
+    ctx.coverage['redis_end_to_end'] = dict(
+        cov, rule='one listener run = the real RedisManager / AsyncRedisManager under the real _thread() on a real '
+                  'server with 1-3 local clients, consuming a scripted channel (valid messages of another server, '
+                  'garbage of each containment level, foreign traffic, dropped connections with refused '
+                  'reconnections); judged by: every valid message has its full effect on the clients, in order, '
+                  'nothing else has any, the listener is still listening')
+
+
 # ---------------------------------------------------------------- entry points
 
 def run(ctx):
@@ -1256,6 +1850,7 @@ def run(ctx):
                 if len(samples) < 2 and len(case['stream']) <= 8:
                     samples.append(case)
         redis_part(ctx, drv)
+        redis_e2e_part(ctx)
     finally:
         drv.close()
     ctx.coverage.update({
@@ -1279,11 +1874,33 @@ def run(ctx):
         'entries stay unconsumed (compared with the model, `alive = false`)',
         'the Redis retry loops run against a fake `redis` package (the real one is not installed); more plans '
         'in the thorough tier',
+        'redis end to end: the fake follows redis-py where it matters here — subscription state per PubSub object, '
+        'SUBSCRIBE/UNSUBSCRIBE take effect in call order, `listen()` ends on an unsubscribed PubSub (after one entry '
+        'of the script has passed it by), a dropped connection raises RedisError from `listen()`, PUBLISH is echoed '
+        'to the publisher\'s own subscription; traffic arrives only when the listener waits for it and (asyncio) the '
+        'loop is otherwise idle; messages published while the manager is between connections are not scripted',
     ]
 
 
 def replay(ctx, r):
     r = r.get('replay', r)
+    if 'redis_case' in r:
+        mods = install_e2e_redis()
+        try:
+            obs = run_e2e(mods, r['redis_case'], r.get('async', False))
+        finally:
+            uninstall_e2e_redis()
+        case = r['redis_case']
+        print('--- redis backend end to end (%s); clients %r, rooms %r, confirmations awaited: %r'
+              % ('asyncio' if r.get('async') else 'threading', case['clients'], case['rooms'],
+                 case.get('net_suspends')))
+        for i, ev in enumerate(case['script']):
+            print('%3d %s' % (i, json.dumps(ev)))
+        print('impl    ', {k: obs[k] for k in ('frames', 'ended', 'sleeps', 'consumed', 'outer_recoveries', 'stats')})
+        print('required', e2e_expected(case))
+        bad = judge_e2e(case, obs)
+        print('oracle: %s' % ('FAILS: ' + '; '.join(bad) if bad else 'holds'))
+        return 1 if bad else 0
     if 'plan' in r:
         print(run_redis(r['plan'], r.get('async', False)))
         return 0
